@@ -47,6 +47,9 @@ from solvor.types import Result
 
 __all__ = ["articulation_points", "bridges"]
 
+# Parent of a DFS root: a private object, so that None stays usable as a node label
+_ROOT = object()
+
 
 def _undirected_adjacency[S](node_list: list[S], neighbors: Callable[[S], Iterable[S]]) -> dict[S, dict[S, None]]:
     """Symmetric adjacency inside the node set (insertion ordered, no self loops).
@@ -81,7 +84,7 @@ def articulation_points[S](
     adj = _undirected_adjacency(node_list, neighbors)
     discovery: dict[S, int] = {}
     low: dict[S, int] = {}
-    parent: dict[S, S | None] = {}
+    parent: dict[S, S | object] = {}
     ap: set[S] = set()
     time = [0]
     iterations = 0
@@ -105,7 +108,7 @@ def articulation_points[S](
                 # v is an articulation point if:
                 # 1. v is root and has 2+ children, OR
                 # 2. v is not root and low[w] >= discovery[v]
-                if parent[v] is None:
+                if parent[v] is _ROOT:
                     if children >= 2:
                         ap.add(v)
                 elif low[w] >= discovery[v]:
@@ -117,7 +120,7 @@ def articulation_points[S](
     # Handle disconnected components
     for v in node_list:
         if v not in discovery:
-            parent[v] = None
+            parent[v] = _ROOT
             dfs(v)
 
     return Result(ap, len(ap), iterations, n)
@@ -141,7 +144,7 @@ def bridges[S](
     adj = _undirected_adjacency(node_list, neighbors)
     discovery: dict[S, int] = {}
     low: dict[S, int] = {}
-    parent: dict[S, S | None] = {}
+    parent: dict[S, S | object] = {}
     bridge_list: list[tuple[S, S]] = []
     time = [0]
     iterations = 0
@@ -172,7 +175,7 @@ def bridges[S](
     # Handle disconnected components
     for v in node_list:
         if v not in discovery:
-            parent[v] = None
+            parent[v] = _ROOT
             dfs(v)
 
     return Result(bridge_list, len(bridge_list), iterations, n)
